@@ -110,6 +110,49 @@ CHECKS["C02"] = dict(
     technique="Lean 4 proof of the column-resolution layer + differential correspondence of complete column path sets on Lean-rendered SQL",
 )
 
+CHECKS["C13"] = dict(
+    category="proof",
+    text="Lean theorems about the model of the provider-driven steps (Model/HolderOps.lean expandWildcard / replaceWildcard / "
+         "addWriteColumns, Model/Assemble.lean resolveOne, Model/InsertCols.lean = the repaired create/insert target handling): for EVERY "
+         "graph and provider each step touches only column nodes and edges incident to a column node and no tag (frame lemmas), hence "
+         "holder.read/.write/.cte/.drop, statement read/write sets and dataset-to-dataset edges are independent of the provider "
+         "(tables_independent_of_provider_ops, resolveAll_tables; statement level for statements without a query and flat "
+         "SELECT/CTAS/VIEW: tables_independent_of_provider_partial); star_exact (the target's successor list after _replace_wildcard = old "
+         "list + the source table's columns in the provider's order minus existing names and wildcards, both wildcard nodes removed); "
+         "unqualified_by_metadata / never_to_known_lacking / graph_owner_first / resolved_edges (owners chosen = exactly the candidates "
+         "whose known columns list the name); insert_positions_from_target_meta, explicit_list_wins(_over_provider), positional_wiring for "
+         "the repaired code; unknown_tables_unchanged_*; dev_D8 witness on the unrepaired model. Tied to the code by a differential "
+         "check: targeted shapes x overlap pattern x EVERY subset of the tables in scope known x provider {dict, SQLAlchemy on in-memory "
+         "sqlite} + seeded random qualified statements, against implementation-only oracles O1-O6 and the Lean model (sqlfx)",
+    design_ref="DESIGN.md §5 C13, §6 D8",
+    note=TB + ". partial: the lift of the frame lemmas through the whole mutual walk (INSERT ... SELECT with provider-named write columns, "
+         "nested queries) is not a theorem: table-level independence for those statements rests on the differential (O1 on every case). "
+         "SQLAlchemy reflection is a black box. Known findings: D27 (wildcard vs positional naming); D8 repaired by "
+         "fixes/D8-explicit-insert-column-list-wins.patch (Model/Stmt.lean follows with patches/Stmt-D8.patch).",
+    technique="Lean 4 proof (frame invariant + normal form of add_write_column) over a hand-written model + differential correspondence "
+              "and implementation-only metamorphic / absolute oracles under both bundled providers",
+)
+
+CHECKS["C14"] = dict(
+    category="proof",
+    text="Lean: qualifyStmt (Model/Qualify.lean) writes every bare base-table name of a typed-AST statement as S.name with standard WITH "
+         "scoping; theorems: one lemma per Table creation site of the model (mkTable_default_eq_qualified, fallback_default_eq_qualified "
+         "for the repaired Table.__init__), qualified_unaffected, placeholder_uniform, spec_default_eq_qualify(+_writes) and "
+         "spec_qualified_stmt_unaffected for ALL statements (tables read/written under default S = those of the qualified statement "
+         "under no / any other default), walk_default_eq_qualify_partial (equal holder GRAPHS for every statement without a query), "
+         "dev_D17 witnesses. Tied to the code by an implementation-vs-implementation differential: generated scripts (qualified text "
+         "rendered by Lean) + the repository's test SQL (conservative token-level rewriter) + text cases, x S in {unset, fresh, used "
+         "qualifier} x mechanism {scoped override, SQLLINEAGE_DEFAULT_SCHEMA in a fresh subprocess[, both]}, comparing tables, all column "
+         "paths and both cytoscape exports; plus model-vs-implementation table lineage on both sides",
+    design_ref="DESIGN.md §5 C14, §6 D17",
+    note=TB + ". partial: the walk-level equality for statements WITH a query is not a theorem (subquery identity is the rendered text, "
+         "which qualification changes; needs graph equivalence modulo subquery renaming): it is checked differentially. S ranges over plain "
+         "lower-case names; how the default reaches the call (env / scoped override) is C15. Known finding D26 (select-list subquery loses "
+         "the schema of its table); D17 repaired by fixes/D17-default-schema-at-call-time.patch.",
+    technique="Lean 4 proof (mutual structural induction over the typed AST against the denotational table specification) + "
+              "implementation-vs-implementation metamorphic differential with Lean-rendered partner texts",
+)
+
 NOT_YET = "machinery not built yet (build phase in progress, see DESIGN.md §9)"
 
 
